@@ -133,6 +133,10 @@ type Opts struct {
 	// variables are regex variables (match-all expressions among them, also in the MIDDLE of a template),
 	// and the requests are mutated twice as often (streams about what a token form admits).
 	Specials bool
+	// Builders: half of the tables are declared the way client code that keeps a RouteBuilder declares
+	// them: one RouteBuilder value given to WebService.Route for several routes, with Method, Path, To …
+	// changed in between (BuildOpts.Reuse).
+	Builders bool
 }
 
 func (o Opts) res() []rePool {
@@ -967,5 +971,5 @@ func genAccept(r *rng.R, rt RouteDecl, all []RouteDecl) string {
 func FullOpts(router string) Opts {
 	return Opts{Router: router, AllowRe: true, AllowSuf: router == "curly", AllowWild: true, AllowVerb: router == "curly",
 		RootVars: true, RootRe: true, Conds: true, Media: true, MaxSvcs: 4, MaxRoutes: 6, Adversarial: true, Contest: true, Faults: true,
-		Wide: true, Observe: true, Changes: true}
+		Wide: true, Observe: true, Changes: true, Builders: true}
 }
